@@ -323,8 +323,12 @@ def r5_no_default_attributes(ctx, F, rule='C04-R5'):
         # `convert_ref(..).map(|map| second_phase(difficulty, &map))`: the combinator and the second phase are read through
         import combin
         rv = combin.expand(F, rv)
-        rv = prov.inline_all(F, rv, depth=2, _seen=(f.path,), only=lambda f_: not f_.get('trait') and not f_.get('impl_adt') and
-                             (f_.get('path') or '').startswith(path.rsplit('::', 1)[0]) and f_.get('name') not in ('difficulty',), loops_ok=False)
+        def _private_method(f_):
+            # a private inherent helper of the builder (`calculate_native::<M>` = `calculate_for_mode::<M>(..).expect(..)`) is read through as well
+            g_ = F.fn(f_.get('path') or '')
+            return g_ is not None and f_.get('impl_adt') == 'any::difficulty::Difficulty' and not str(g_.j.get('vis')).startswith('Public')
+        rv = prov.inline_all(F, rv, depth=2, _seen=(f.path,), only=lambda f_: not f_.get('trait') and f_.get('name') not in ('difficulty',) and
+                             ((not f_.get('impl_adt') and (f_.get('path') or '').startswith(path.rsplit('::', 1)[0])) or _private_method(f_)), loops_ok=False)
 
         def alts(v, depth=0):
             v = prov.strip(v, names={'expect', 'unwrap'})
